@@ -94,7 +94,9 @@ def run_mutants(prop, spec, repo, infos, C, defs, classes, LEMMAS):
             out.append(dict(mu, status='survived', reason='no function under contract for this property contains the edit')); continue
         t0 = time.time()
         vcs, _, und = generate(prop, dict(functions=items), rm, C, defs, classes, LEMMAS)
-        vcmod.discharge(vcs)
+        vcmod.SHORT_PLAN = True
+        try: vcmod.discharge(vcs)
+        finally: vcmod.SHORT_PLAN = False
         bad = [v for v in vcs if vcmod.status(v) != 'proved' and not (v.expect == 'sat' and v.result != 'unsat')]
         st = 'killed' if (bad or und) else 'survived'
         out.append(dict(mu, status=st, obligations=len(vcs), time_s=round(time.time() - t0, 1),
